@@ -471,12 +471,86 @@ type vfC07Run struct {
 	ls     map[string]*vfC07Ledger // per host: closures registered ON it, invocations ON it
 	slots  []*vfC07Str
 	absent []bool // the model has a stream in this slot, the real host refused it (after an L2 divergence)
+	// the application's ONE preference list: a backing array reused by every open of the walk (both dialers);
+	// want is what the caller wrote into it, kept apart, so that any write of the library shows
+	back, want []protocol.ID
+	wantLen    int
+	damaged    bool // the library wrote into the array; the application goes on using it until it rewrites it
 	t      *testing.T
 }
 
 func (r *vfC07Run) rep(cls, what string, exp, got any) {
 	r.res.AddMismatch(vfh.Mismatch{Class: cls, What: what, Walk: r.walk, Step: r.step, Expected: exp, Got: got,
 		Prefix: append([]vfh.Op(nil), r.prefix...), Cfg: r.cfg})
+}
+
+const vfC07Sentinel = protocol.ID("/verif/sentinel")
+
+// vfC07Owned hands a caller-owned copy of list to an API call and returns the check to run after the call:
+// the library must not modify arguments the caller owns (L1; for this statement: the bound protocol has to be
+// in the list AS THE CALLER WROTE IT, also at the caller's next use of the same array)
+func vfC07Owned(rep vfC07Reporter, what string, list []protocol.ID) ([]protocol.ID, func()) {
+	arg := append(make([]protocol.ID, 0, len(list)+1), list...)
+	arg = append(arg, vfC07Sentinel)[:len(list)] // spare capacity, as append-grown application slices have
+	return arg, func() {
+		full := arg[:len(list)+1]
+		for i, p := range full {
+			w := vfC07Sentinel
+			if i < len(list) {
+				w = list[i]
+			}
+			if p != w {
+				rep("caller-argument-modified", what+" modified the protocol list the caller passed in", append(append([]protocol.ID(nil), list...), vfC07Sentinel), append([]protocol.ID(nil), full...))
+				return
+			}
+		}
+	}
+}
+
+// reqArg: the slice passed to NewStream for the model's request list.  When the list is a contiguous part
+// of what the application's shared preference array already holds (a prefix list[:k] or a window list[i:j]
+// of an earlier, longer request), that very sub-slice is passed; otherwise the application rewrites its array.
+func (r *vfC07Run) reqArg(req []protocol.ID) []protocol.ID {
+	if r.back == nil {
+		r.back, r.want = make([]protocol.ID, 4), make([]protocol.ID, 4)
+		for i := range r.back {
+			r.back[i], r.want[i] = vfC07Sentinel, vfC07Sentinel
+		}
+	}
+	for i := 0; i+len(req) <= r.wantLen; i++ {
+		same := true
+		for j := range req {
+			same = same && r.want[i+j] == req[j]
+		}
+		if same {
+			r.res.Inc("open_args_subslice_of_earlier_list", 1)
+			if i == 0 && len(req) < r.wantLen {
+				r.res.Inc("open_args_prefix_of_earlier_list", 1)
+			}
+			return r.back[i : i+len(req)]
+		}
+	}
+	for i := range r.back {
+		r.back[i], r.want[i] = vfC07Sentinel, vfC07Sentinel
+		if i < len(req) {
+			r.back[i], r.want[i] = req[i], req[i]
+		}
+	}
+	r.wantLen, r.damaged = len(req), false
+	return r.back[:len(req)]
+}
+
+func (r *vfC07Run) checkBack(what string) {
+	if r.damaged {
+		return
+	}
+	for i := range r.back {
+		if r.back[i] != r.want[i] {
+			r.rep("caller-argument-modified", what+" modified the application's preference list (the array it passed a sub-slice of)", append([]protocol.ID(nil), r.want...), append([]protocol.ID(nil), r.back...))
+			r.damaged = true // the application goes on with the damaged array: sub-slices of it are what later opens pass
+			return
+		}
+	}
 }
 
 func (r *vfC07Run) connect() {
@@ -525,7 +599,10 @@ func (r *vfC07Run) teardown() {
 
 // knowledge: what host x's peerstore lists for the other host (restricted to the model's ids)
 func (r *vfC07Run) knowledge(x string) []string {
-	sup, _ := r.nodes[x].ps.SupportsProtocols(r.nodes[vfC07Other(x)].id, vfC07P...)
+	arg, check := vfC07Owned(r.rep, "Peerstore.SupportsProtocols", vfC07P)
+	sup, _ := r.nodes[x].ps.SupportsProtocols(r.nodes[vfC07Other(x)].id, arg...)
+	sup = append([]protocol.ID(nil), sup...)
+	check()
 	out := []string{}
 	for _, p := range sup {
 		out = append(out, string(p))
@@ -559,7 +636,9 @@ func (r *vfC07Run) apply(op vfh.Op) {
 		synctest.Wait()
 	case "forget":
 		x := vfC07At(op, "A")
-		r.nodes[x].ps.RemoveProtocols(r.nodes[vfC07Other(x)].id, vfC07P...)
+		arg, check := vfC07Owned(r.rep, "Peerstore.RemoveProtocols", vfC07P)
+		r.nodes[x].ps.RemoveProtocols(r.nodes[vfC07Other(x)].id, arg...)
+		check()
 	case "learn":
 		for i, x := range r.slots { // the model enables learn only with every slot idle
 			if x != nil {
@@ -610,8 +689,13 @@ func (r *vfC07Run) open(op vfh.Op) {
 	noCommon := !vfC07CommonNow(ll, req)
 	n0, n0d := ll.nInvs(), r.ls[d].nInvs()
 	openSeq := ll.seq.Add(1)
-	s, err := dn.h.NewStream(context.Background(), ln.id, req...)
+	arg := r.reqArg(req)
+	if len(req) > 1 {
+		r.res.Inc("open_args_multi", 1)
+	}
+	s, err := dn.h.NewStream(context.Background(), ln.id, arg...)
 	synctest.Wait()
+	r.checkBack("NewStream")
 	invs := ll.invsFrom(n0)
 	if n := r.ls[d].nInvs() - n0d; n != 0 {
 		r.rep("wrong-endpoint", "a handler of the DIALING host ran while it opened a stream to the other host", 0, n)
